@@ -25,7 +25,7 @@ def meta(tier, seed):
                   "deterministic policies: row i of a batch equals the single-row answer for row i; probe: the bandit "
                   "itself answers queries, its arms then change without changing their number (remove+add in either order), "
                   "and the outputs must again range over exactly the new arm list",
-        "bounds": {"depth": "3 (2 for float labels and for n_jobs=2)" if tier == "quick" else 4, "label_types": ["int", "str", "float"],
+        "bounds": {"depth": "3 (2 for float / mixed labels and for n_jobs=2)" if tier == "quick" else 4, "label_types": ["int", "str", "float", "mixed (numeric arms, then a str arm added)"],
                    "n_jobs": [1, "2 (joblib model: isolated pickled workers, task order)"], "query_rows": ["none", 1, 2, 3]},
         "assumptions": ["KNearest states with fewer stored rows than k are outside the domain (counted as skipped)",
                         "explicit no_nhood_prob_of_arm vectors combined with arm changes are outside the alphabet "
@@ -37,11 +37,11 @@ def shards(tier, seed):
     out = []
     depth = 3 if tier == "quick" else 4
     for ln, nn in A.combos():
-        for labels in ("int", "str", "float"):
+        for labels in ("int", "str", "float", "mixed"):
             for n_jobs in (1, 2):
                 if n_jobs == 2 and labels != "int" and tier == "quick":
                     continue
-                d = depth - 1 if (tier == "quick" and (labels == "float" or n_jobs == 2)) else depth
+                d = depth - 1 if (tier == "quick" and (labels in ("float", "mixed") or n_jobs == 2)) else depth
                 out.append({"ln": ln, "nn": nn, "labels": labels, "n_jobs": n_jobs, "depth": d, "seed": 3 + seed})
     return A.heavy_first(out)
 
@@ -209,7 +209,7 @@ def run_shard(shard):
             acc.sample({"cfg": cfg, "history": hist, "queries": "none/1/2/3 rows"})
         for ql, msg in bad:
             acc.violation("%s/%s %s %s: %s" % (ln, nn, labels, ql, msg.split(":")[0][:50]),
-                          {"cfg": cfg, "ln": ln, "history": hist}, "%s: %s" % (ql, msg))
+                          {"cfg": cfg, "ln": ln, "history": hist, "labels": labels}, "%s: %s" % (ql, msg))
 
     S.explore(cfg, labels, shard["depth"], acc, visit, model=model if shard["n_jobs"] > 1 else None, query=True)
     return acc.result()
@@ -223,5 +223,5 @@ def replay(w):
         with model():
             ops.apply(mab, op)
     cf = ops.is_context_free(cfg)
-    labels = "int" if isinstance(cfg["arms"][0], int) else "str" if isinstance(cfg["arms"][0], str) else "float"
+    labels = w.get("labels") or ("int" if isinstance(cfg["arms"][0], int) else "str" if isinstance(cfg["arms"][0], str) else "float")
     return ["%s: %s" % x for x in (check_state(mab, cfg, ln, cf, model) or probe_after_queries(mab, cf, labels, model))]
